@@ -197,7 +197,7 @@ pub fn run(tier: Tier) -> Report {
     let lr = long_reason();
     let mut starts: Vec<(&str, Vec<u8>)> = Vec::new();
     for v in ["1.0", "1.1"] {
-        for s in [101u16, 200, 302, 404, 999] {
+        for s in [100u16, 101, 200, 302, 404, 999] {
             starts.push(("response", status_line(v, s, Some(b"OK"))));
         }
         starts.push(("response", status_line(v, 200, None)));
